@@ -106,7 +106,7 @@ def stepModel (c b : Tpp.Canvas) : COp → Tpp.Canvas × Tpp.Canvas × Option St
   | .dump => (c, b, some (showSize c.size ++ ":" ++ ",".intercalate (c.grid.map showElement)))
   | .fl ox oy w h e =>
     if regionInside c.size ox oy w h then
-      ((regionCoords ⟨⟨ox, oy⟩, ⟨w, h⟩⟩).foldl (fun acc p => acc.set p.1 p.2 e) c, b, none)
+      (c.fill ⟨⟨ox, oy⟩, ⟨w, h⟩⟩ e, b, none)
     else (c, b, some "?range")
   | .cp => (c, c, none)
   | .ba => (b, b, none)
